@@ -91,6 +91,21 @@ def extra_scenarios(tier):
                 for sort in (SORTS if thorough else ("fcfs", "lrpt")):
                     for unint in (False, True):
                         yield {"net": netname, "sessions": ss, "sched": {"kind": algo, "sort": sort, "est": "loose", "unint": unint, "inc": 1}, "period": 5}
+    # (1c) a site with a deadband EVSE that stays IDLE (sessions only on the from-zero and finite-rate stations): an idle
+    # station gets 0, whatever its own lowest positive level is
+    pool = [sess(st, a, 3, kind, i) for i, (st, a, kind) in enumerate(itertools.product(("PS-B", "PS-C"), (0, 1), ("fast", "small")))]
+    for ss in S.session_subsets(pool, 1, 2):
+        for algo in ("greedy", "rr"):
+            for sort in (SORTS if thorough else ("fcfs", "llf")):
+                for unint in (False, True):
+                    yield {"net": "N3", "sessions": ss, "sched": {"kind": algo, "sort": sort, "est": False, "unint": unint, "inc": 1}, "period": 5}
+    # (1d) finite-rate levels that are not whole amperes
+    stations = list(S.NETS["N16"]["stations"])
+    pool = [sess(st, a, 3, kind, i) for i, (st, a, kind) in enumerate(itertools.product(stations, (0, 1), ("fast", "small")))]
+    for ss in S.session_subsets(pool, 1, 3 if thorough else 2):
+        for algo in ("greedy", "rr"):
+            for sort in (SORTS if thorough else ("fcfs", "lcfs", "lrpt")):
+                yield {"net": "N16", "sessions": ss, "sched": {"kind": algo, "sort": sort, "est": False, "unint": False, "inc": 1}, "period": 5}
     # (2)
     stations = list(S.NETS["N9"]["stations"])
     pool = [sess(st, a, 3, kind, i) for i, (st, a, kind) in enumerate(itertools.product(stations, (0, 1), ("fast", "small")))]
